@@ -35,7 +35,7 @@ Lemma comm_sound_l (x y : T) : Rw (Sel (Rp x * Sel y)) == 0.
 Proof.
   intros n Hn p q Hp Hq. rewrite Rw_entry, Sel_entry.
   destruct (cm p) eqn:C; [|reflexivity]. destruct (keep p q) eqn:K; [|reflexivity].
-  rewrite mul_entry. apply bigsum_zero. intros (a, b) _. apply bigsum_zero.
+  rewrite (mul_entry (Rg := Rg)). apply bigsum_zero. intros (a, b) _. apply bigsum_zero.
   intros r Hr. apply in_range in Hr. cbn [fst snd].
   unfold Rp. rewrite sub_entry, !Sel_entry.
   destruct (keep r q) eqn:K2; [|non_commutative_ring].
@@ -46,7 +46,7 @@ Lemma comm_sound_r (x y : T) : Rw (Sel (Sel y * Rp x)) == 0.
 Proof.
   intros n Hn p q Hp Hq. rewrite Rw_entry, Sel_entry.
   destruct (cm p) eqn:C; [|reflexivity]. destruct (keep p q) eqn:K; [|reflexivity].
-  rewrite mul_entry. apply bigsum_zero. intros (a, b) _. apply bigsum_zero.
+  rewrite (mul_entry (Rg := Rg)). apply bigsum_zero. intros (a, b) _. apply bigsum_zero.
   intros r Hr. apply in_range in Hr. cbn [fst snd].
   unfold Rp. rewrite sub_entry, !Sel_entry.
   destruct (keep p r) eqn:K2; [|non_commutative_ring].
@@ -69,7 +69,7 @@ Proof.
   change (eqT (lf (dgm blk) (cv (lf (dgm blk) x) (lf (dgm blk) y)))
               (cv (lf (dgm blk) x) (lf (dgm blk) y))).
   apply (lift_conv_closed (mmask (D := D) (dgm blk))). intros a b _ _. unfold lift.
-  apply mmask_mul_closed. intros i r j _ _ _. apply dgm_dgm.
+  apply (mmask_mul_closed (Rg := Rg)). intros i r j _ _ _. apply dgm_dgm.
 Qed.
 
 Lemma Up_Dg_Up (x y : T) : Up (Dg x * Up y) == Dg x * Up y.
@@ -77,7 +77,7 @@ Proof.
   change (eqT (lf (upm blk) (cv (lf (dgm blk) x) (lf (upm blk) y)))
               (cv (lf (dgm blk) x) (lf (upm blk) y))).
   apply (lift_conv_closed (mmask (D := D) (upm blk))). intros a b _ _. unfold lift.
-  apply mmask_mul_closed. intros i r j _ _ _. apply dgm_upm.
+  apply (mmask_mul_closed (Rg := Rg)). intros i r j _ _ _. apply dgm_upm.
 Qed.
 
 Lemma Up_Up_Dg (x y : T) : Up (Up x * Dg y) == Up x * Dg y.
@@ -85,7 +85,7 @@ Proof.
   change (eqT (lf (upm blk) (cv (lf (upm blk) x) (lf (dgm blk) y)))
               (cv (lf (upm blk) x) (lf (dgm blk) y))).
   apply (lift_conv_closed (mmask (D := D) (upm blk))). intros a b _ _. unfold lift.
-  apply mmask_mul_closed. intros i r j _ _ _. apply upm_dgm.
+  apply (mmask_mul_closed (Rg := Rg)). intros i r j _ _ _. apply upm_dgm.
 Qed.
 
 Lemma Lo_Dg_Lo (x y : T) : Lo (Dg x * Lo y) == Dg x * Lo y.
@@ -93,7 +93,7 @@ Proof.
   change (eqT (lf (lom blk) (cv (lf (dgm blk) x) (lf (lom blk) y)))
               (cv (lf (dgm blk) x) (lf (lom blk) y))).
   apply (lift_conv_closed (mmask (D := D) (lom blk))). intros a b _ _. unfold lift.
-  apply mmask_mul_closed. intros i r j _ _ _. apply dgm_lom.
+  apply (mmask_mul_closed (Rg := Rg)). intros i r j _ _ _. apply dgm_lom.
 Qed.
 
 Lemma Lo_Lo_Dg (x y : T) : Lo (Lo x * Dg y) == Lo x * Dg y.
@@ -101,7 +101,7 @@ Proof.
   change (eqT (lf (lom blk) (cv (lf (lom blk) x) (lf (dgm blk) y)))
               (cv (lf (lom blk) x) (lf (dgm blk) y))).
   apply (lift_conv_closed (mmask (D := D) (lom blk))). intros a b _ _. unfold lift.
-  apply mmask_mul_closed. intros i r j _ _ _. apply lom_dgm.
+  apply (mmask_mul_closed (Rg := Rg)). intros i r j _ _ _. apply lom_dgm.
 Qed.
 
 (** ** exactly two blocks *)
@@ -111,15 +111,15 @@ Hypothesis two_blocks : forall p, (p < D)%nat -> (blk p < 2)%nat.
 Lemma Up_Up_zero (x y : T) : Up x * Up y == 0.
 Proof.
   change (eqT (cv (lf (upm blk) x) (lf (upm blk) y)) (szero k)).
-  apply conv_zero_terms. intros a b _ _. unfold lift.
-  apply mmask_mul_zero. intros i r j. now apply upm_upm2.
+  apply (conv_zero_terms (Rg := mat_Ring D)). intros a b _ _. unfold lift.
+  apply (mmask_mul_zero (Rg := Rg)). intros i r j. now apply upm_upm2.
 Qed.
 
 Lemma Lo_Lo_zero (x y : T) : Lo x * Lo y == 0.
 Proof.
   change (eqT (cv (lf (lom blk) x) (lf (lom blk) y)) (szero k)).
-  apply conv_zero_terms. intros a b _ _. unfold lift.
-  apply mmask_mul_zero. intros i r j. now apply lom_lom2.
+  apply (conv_zero_terms (Rg := mat_Ring D)). intros a b _ _. unfold lift.
+  apply (mmask_mul_zero (Rg := Rg)). intros i r j. now apply lom_lom2.
 Qed.
 
 Lemma Dg_Up_Lo (x y : T) : Dg (Up x * Lo y) == Up x * Lo y.
@@ -127,7 +127,7 @@ Proof.
   change (eqT (lf (dgm blk) (cv (lf (upm blk) x) (lf (lom blk) y)))
               (cv (lf (upm blk) x) (lf (lom blk) y))).
   apply (lift_conv_closed (mmask (D := D) (dgm blk))). intros a b _ _. unfold lift.
-  apply mmask_mul_closed. intros i r j. now apply upm_lom2.
+  apply (mmask_mul_closed (Rg := Rg)). intros i r j. now apply upm_lom2.
 Qed.
 
 Lemma Dg_Lo_Up (x y : T) : Dg (Lo x * Up y) == Lo x * Up y.
@@ -135,7 +135,7 @@ Proof.
   change (eqT (lf (dgm blk) (cv (lf (lom blk) x) (lf (upm blk) y)))
               (cv (lf (lom blk) x) (lf (upm blk) y))).
   apply (lift_conv_closed (mmask (D := D) (dgm blk))). intros a b _ _. unfold lift.
-  apply mmask_mul_closed. intros i r j. now apply lom_upm2.
+  apply (mmask_mul_closed (Rg := Rg)). intros i r j. now apply lom_upm2.
 Qed.
 End TwoBlocks.
 
